@@ -1,6 +1,6 @@
 SPECIFICATION FairSpec
 CONSTANTS
   MaxK = 3
-INVARIANTS TypeOK IterBound DoneTerminal ReportMatchesIterate IterationsReported KappaIffInfeasible NoStaleInfeasibleFull RollbackHasPrev PrintShape
+INVARIANTS TypeOK IterBound DoneTerminal ReportMatchesIterate IterationsReported KappaIffInfeasible NoStaleInfeasibleFull RollbackHasPrev PrintShape LastRowMatches
 PROPERTIES ScalingMonotone Termination
 CHECK_DEADLOCK FALSE
